@@ -145,7 +145,8 @@ def _mk(N, Ms, tier):
                 v = np.dot(H, A)
                 sos = sum((v[0, j] * v[0, j] for j in range(1, N)), v[0, 0] * v[0, 0]) + R[0, 0]
                 vc.cut(f"O-C06-update-{tag}.innov-cov-pd{T}", vc.eq(S[0, 0], sos, 1e-6))
-                vc.cut(f"O-C06-update-{tag}.innov-cov-pd{T}", S[0, 0] > 0)  # (innov_cvr == S is the obligation above)
+                # (innov_cvr == S is the obligation above, S == sos the cut just made: hence innov_cvr = sos > 0)
+                vc.cut(f"O-C06-update-{tag}.innov-cov-pd{T}", sos > 0)
             # (positive definiteness of a stacked 2x2 innovation covariance is not attempted: only M = 1)
             vc.ensure(f"O-C06-update-{tag}.cross-cov{T}", vc.eq(f.cross_cvr, C, 1e-4))
             # gain = cross * inv(S) term-for-term; with S positive definite (cut above) this is K S = cross (definition of the inverse)
